@@ -14,6 +14,12 @@ import (
 	"strings"
 
 	"github.com/benoitkugler/gomacro/analysis"
+	"github.com/benoitkugler/gomacro/generator"
+	"github.com/benoitkugler/gomacro/generator/go/gounions"
+	"github.com/benoitkugler/gomacro/generator/go/randdata"
+	"github.com/benoitkugler/gomacro/generator/go/sqlcrud"
+	gsql "github.com/benoitkugler/gomacro/generator/sql"
+	"github.com/benoitkugler/gomacro/generator/typescript"
 	"golang.org/x/tools/go/packages"
 )
 
@@ -211,18 +217,28 @@ func c07CLI(e *env) {
 	pkgs := []string{"alpha", "beta", "gamma", "delta"}
 	conf := map[string][]map[string]string{}
 	var outputs []string
+	type outSpec struct{ file, ext, mode string }
+	var expected []outSpec
 	for i, p := range pkgs {
-		src := fmt.Sprintf("package %s\n\ntype Id%s int64\n\ntype Kind%d int\n\nconst (\n\tK%dA Kind%d = iota\n\tK%dB\n)\n\n// gomacro:SQL ADD UNIQUE(Name)\ntype %s struct {\n\tId Id%s\n\tName string\n\tKind Kind%d\n\tTags []string\n}\n",
+		src := fmt.Sprintf("package %s\n\ntype Id%s int64\n\ntype Kind%d int\n\nconst (\n\tK%dA Kind%d = iota\n\tK%dB\n)\n\n// gomacro:SQL ADD UNIQUE(Name)\ntype %s struct {\n\tId Id%s\n\tName string\n\tKind Kind%d\n}\n",
 			p, strings.Title(p), i, i, i, i, strings.Title(p), strings.Title(p), i)
-		file := filepath.Join(mod, p, p+".go")
-		writeFile(file, src)
-		var acts []map[string]string
-		for _, mo := range []struct{ mode, ext string }{{"sql", ".sql"}, {"typescript/types", ".ts"}, {"go/randdata", "_rand.go"}} {
-			out := filepath.Join(dir, "out", p+mo.ext)
-			acts = append(acts, map[string]string{"Mode": mo.mode, "Output": out})
+		shapes := fmt.Sprintf("package %s\n\ntype Shape%d interface{ isShape%d() }\n\ntype Circle%d struct{ R int }\n\nfunc (Circle%d) isShape%d() {}\n\ntype Holder%d struct {\n\tS Shape%d\n\tN int\n}\n", p, i, i, i, i, i, i, i)
+		tables := filepath.Join(mod, p, p+".go")
+		unions := filepath.Join(mod, p, "shapes.go")
+		writeFile(tables, src)
+		writeFile(unions, shapes)
+		add := func(file, mode, ext string) {
+			out := filepath.Join(dir, "out", p+ext)
+			conf[file] = append(conf[file], map[string]string{"Mode": mode, "Output": out})
 			outputs = append(outputs, out)
+			expected = append(expected, outSpec{file, ext, mode})
 		}
-		conf[file] = acts
+		add(tables, "sql", ".sql")
+		add(tables, "typescript/types", ".ts")
+		add(tables, "go/randdata", "_rand.go")
+		add(tables, "go/sqlcrud", "_crud.go")
+		add(unions, "go/unions", "_unions.go")
+		add(unions, "typescript/types", "_shapes.ts")
 	}
 	cb, _ := json.Marshal(conf)
 	confFile := filepath.Join(dir, "conf.json")
@@ -268,6 +284,45 @@ func c07CLI(e *env) {
 			}
 			contents[o][c] = true
 		}
+	}
+	// the command and the library entry points are two generations of the same targets from the same sources:
+	// the files of the last run must be what the generators return in this process (the formatters are absent)
+	for _, sp := range expected {
+		sp := sp
+		func() {
+			defer func() {
+				if r := recover(); r != nil {
+					e.m.fail(oracleFailure{What: fmt.Sprintf("the library entry points die on %s: %v", sp.file, r), Input: sp.file, NoInput: true})
+				}
+			}()
+			lp, _, err := analysis.LoadSources([]string{sp.file})
+			if err != nil {
+				e.m.fail(oracleFailure{What: "LoadSources: " + err.Error(), Input: sp.file, NoInput: true})
+				return
+			}
+			an := analysis.NewAnalysisFromFile(lp[0], sp.file)
+			var w string
+			switch sp.mode {
+			case "sql":
+				w = generator.WriteDeclarations(gsql.Generate(an))
+			case "typescript/types":
+				w = generator.WriteDeclarations(typescript.Generate(an))
+			case "go/randdata":
+				w = generator.WriteDeclarations(randdata.Generate(an))
+			case "go/sqlcrud":
+				w = generator.WriteDeclarations(sqlcrud.Generate(an, false))
+			case "go/unions":
+				w = generator.WriteDeclarations(gounions.Generate(an))
+			}
+			out := filepath.Join(dir, "out", filepath.Base(filepath.Dir(sp.file))+sp.ext)
+			b, _ := os.ReadFile(out)
+			e.m.OracleRuns++
+			e.m.count("cli_vs_library_output")
+			if string(b) != w {
+				e.m.fail(oracleFailure{What: "the file written by the command differs from what the generator returns for the same source: " + filepath.Base(out),
+					Input: map[string]interface{}{"config": conf, "output": out}, Expect: firstDiff(w, string(b))})
+			}
+		}()
 	}
 	for _, o := range outputs {
 		e.m.Evaluations++
